@@ -226,6 +226,22 @@ fn sched_insert_2() {
     insert_n::<2>()
 }
 
+/// model of the derived `<TimeRange as std::clone::Clone>::clone` for harnesses whose comment sets are all empty: same range and
+/// kind, a fresh empty comment set (what the derive produces for an empty set), without the `Arc` clone glue
+pub(crate) fn timerange_clone_model(tr: &TimeRange) -> TimeRange {
+    TimeRange { range: tr.range.start..tr.range.end, kind: tr.kind, comments: UniqueSortedVec::new() }
+}
+
+//@H props=C14,C04 tier=deep kind=bounded cap=3600 mem=heavy bound="1 existing range + 1 inserted" domain="bounds anywhere in 00:00..=48:00, all kinds, query minute 00:00..=48:00"
+#[cfg_attr(kani, kani::proof)]
+#[cfg_attr(kani, kani::unwind(4))]
+#[cfg_attr(kani, kani::stub(opening_hours_syntax::sorted_vec::UniqueSortedVec::union, union_left_model))]
+#[cfg_attr(kani, kani::stub(<TimeRange as std::clone::Clone>::clone, timerange_clone_model))]
+#[cfg_attr(verif_replay, test)]
+fn sched_insert_1c() {
+    insert_n::<1>()
+}
+
 // ---- addition ---------------------------------------------------------------------------------------------
 
 fn addition_nm<const N: usize, const M: usize>() {
@@ -329,7 +345,7 @@ fn sched_iter_1() {
     iter_n::<1>()
 }
 
-//@H props=C14,C04 tier=quick kind=bounded cap=2400 mem=medium bound="2 ranges" domain="bounds anywhere in 00:00..=48:00, all kinds, query minute 00:00..23:59"
+//@H tier_C04=thorough props=C14,C04 tier=quick kind=bounded cap=2400 mem=medium bound="2 ranges" domain="bounds anywhere in 00:00..=48:00, all kinds, query minute 00:00..23:59"
 #[cfg_attr(kani, kani::proof)]
 #[cfg_attr(kani, kani::unwind(7))]
 #[cfg_attr(kani, kani::stub(opening_hours_syntax::sorted_vec::UniqueSortedVec::union, union_left_model))]
